@@ -620,6 +620,20 @@ class InterpCore:
         ka, kb = kind_of_strlike(a), kind_of_strlike(b)
         if ka and ka == kb:
             return mk_str(z3.If(c, str_to_z3(a), str_to_z3(b)), ka)
+        from .sym import PList as _PL, SymSeq as _SS
+
+        if isinstance(a, (_PL, _SS, list)) and isinstance(b, (_PL, _SS, list)):
+            def empty(x):
+                return (isinstance(x, list) and not x) or (isinstance(x, _PL) and x.sym is None and not x.items)
+
+            if empty(a) and empty(b):
+                return _PL([])
+            sa = ops.to_seq(self.ctx, a) if not empty(a) else None
+            sb = ops.to_seq(self.ctx, b) if not empty(b) else None
+            like = sa or sb
+            ea = sa.e if sa is not None else z3.Empty(like.e.sort())
+            eb = sb.e if sb is not None else z3.Empty(like.e.sort())
+            return _PL(sym=_SS(z3.If(c, ea, eb), like.elem))
         raise Unsupported("ite on non scalar in spec")
 
     def ev_NamedExpr(self, e, fr):
